@@ -8,6 +8,8 @@ CONSTANTS
   MaxFaults = 0
   UnpubOn = TRUE
   TwoVersions = TRUE
+  Expiry = FALSE
+  KeepExpiredUnpublished = FALSE
   MaxSteps = 22
 INVARIANT Emit
 CHECK_DEADLOCK FALSE
